@@ -145,16 +145,34 @@ def main(argv):
         # ---- triage of refuted / undecided symbolic units: native replay, then bounded search -------------------
         violations, known_hits, undecided_lines = [], [], []
         known = load_known()
+        # native replays of first counter-models run in parallel; per obligation at most 24 refuted units are replayed / searched
+        # (the others are listed as refuted; the report prefers a natively reproduced unit)
+        pre, per_ob = {}, {}
+        for r in sym_results:
+            if r['status'] == 'REFUTED' and r['refuted']:
+                per_ob[r['oid']] = per_ob.get(r['oid'], 0) + 1
+                if per_ob[r['oid']] <= 24:
+                    pre[(r['oid'], r['case_idx'])] = npool.apply_async(
+                        _nat_task, (('once', r['oid'], r['case_idx'], r['refuted'][0].get('inputs') or {}),))
         for r in sym_results:
             o = engine.REGISTRY[r['oid']]
             if r['status'] == 'ERROR':
                 fault.append((unit_name(r), r.get('error')))
                 continue
+            if r['status'] == 'REFUTED' and (r['oid'], r['case_idx']) not in pre:
+                r['replay'] = None
+                violations.append(r)
+                continue
             if r['status'] == 'REFUTED':
                 rep = None
-                for cex in r['refuted']:
+                for ci_, cex in enumerate(r['refuted']):
                     inputs = cex.get('inputs') or {}
-                    nr = npool.apply_async(_nat_task, (('once', r['oid'], r['case_idx'], inputs),)).get(timeout=600)
+                    if ci_ == 0:
+                        nr = _get(pre[(r['oid'], r['case_idx'])], 600)
+                        if nr.get('timed_out'):
+                            continue
+                    else:
+                        nr = npool.apply_async(_nat_task, (('once', r['oid'], r['case_idx'], inputs),)).get(timeout=600)
                     if nr.get('crashed'):
                         fault.append((unit_name(r), nr.get('error')))
                         continue
